@@ -210,7 +210,36 @@ def native_roundtrip(u, vals, validate_only=False):
     mmin = min([vals['m%d' % i] for i in range(na) if vals['m%d' % i] > 0] + [mtot or 1.0])
     tol = 1e-7 * scale * max(1.0, (mtot / mmin) if mmin > 0 else 1.0)
     bad = worst > tol or com_bad > tol
-    return bad, "native round trip error %.3e at %r, slot-0 error %.3e (tolerance %.1e)" % (worst, where, com_bad, tol)
+    acc_note = ''
+    if 'fwd_acc' in S:
+        # acceleration variants: the acc map must be the position map applied to the accelerations, and inv_acc(fwd_acc) the identity
+        TA = arr(); BA = arr(); A2 = arr(); T2 = arr()
+        for i in range(N):
+            view(BA, i).set('m', vals['m%d' % i]); view(A2, i).set('m', vals['m%d' % i])
+            for a_, p_ in zip(ACC, POS): view(A2, i).set(p_, vals['%s%d' % (a_, i)])
+        call(S['fwd_acc'], A, TA)
+        for i in range(N): view(TA, i).set('m', view(T, i).get('m'))
+        call(S['inv_acc'], BA, TA)
+        ascale = max([abs(vals['%s%d' % (f, i)]) for i in range(N) for f in ACC] + [1e-300])
+        atol = 1e-7 * ascale * max(1.0, (mtot / mmin) if mmin > 0 else 1.0)
+        w2 = 0.0; wh2 = None
+        for i in range(N):
+            for f in ACC:
+                d = abs(view(BA, i).get(f) - vals['%s%d' % (f, i)])
+                if not d <= w2: w2, wh2 = (d if d == d else float('inf')), ('round trip', i, f)
+        # forward_pos on accelerations-as-positions (uses the original particle set for masses where the API wants it)
+        f_ = getattr(_nat.lib, S['fwd']); f_.restype = None
+        if S['pmass']:
+            f_.argtypes = [ctypes.c_void_p] * 3 + [ctypes.c_uint, ctypes.c_uint]; f_(ctypes.addressof(A2), ctypes.addressof(T2), ctypes.addressof(A), N, na)
+        else:
+            f_.argtypes = [ctypes.c_void_p] * 2 + [ctypes.c_uint, ctypes.c_uint]; f_(ctypes.addressof(A2), ctypes.addressof(T2), N, na)
+        for i in range(N):
+            for a_, p_ in zip(ACC, POS):
+                d = abs(view(TA, i).get(a_) - view(T2, i).get(p_))
+                if not d <= w2: w2, wh2 = (d if d == d else float('inf')), ('acc vs pos map', i, a_)
+        if w2 > atol: bad = True
+        acc_note = ", acceleration variants worst %.3e at %r (tolerance %.1e)" % (w2, wh2, atol)
+    return bad, "native round trip error %.3e at %r, slot-0 error %.3e (tolerance %.1e)%s" % (worst, where, com_bad, tol, acc_note)
 
 def replay(data):
     return native_roundtrip(data['unit'], data['inputs'])
